@@ -80,7 +80,7 @@ func drawC11(t *rapid.T) Case {
 	return c
 }
 
-var loneMinusRe = regexp.MustCompile(`-\s*[\]}]`)
+var loneMinusRe = regexp.MustCompile(`-\s*([\]},]|$)`)
 
 var c11Decoders = []decoderSel{{"jit", false, false}, {"optdec", true, false}, {"optdec+fastmap", true, true}}
 
@@ -126,6 +126,10 @@ func (c *C11Case) Run() (res stat.Result) {
 			res.Known = append(res.Known, "C11-optdec-usenumber-lone-minus")
 			return
 		}
+		if !structural && outs[i].err == nil && ref.UnterminatedStringQuirk(c.Doc) && knownListed("C02-unterminated-string-escaped-quote-block-tail") {
+			res.Known = append(res.Known, "C02-unterminated-string-escaped-quote-block-tail")
+			return
+		}
 		if !structural && outs[i].err == nil {
 			res.Err = fmt.Errorf("%s/opts=%#x accepted a structurally malformed document %s into %s", d.name, c.Opts, clipB(c.Doc), ty)
 			return
@@ -140,6 +144,10 @@ func (c *C11Case) Run() (res stat.Result) {
 					res.Known = append(res.Known, id)
 					continue
 				}
+				if id := c.classifyMerge(ty, api, i); id != "" {
+					res.Known = append(res.Known, id)
+					continue
+				}
 				res.Err = fmt.Errorf("%s: jit err=%v, %s err=%v", what, a.err, c11Decoders[i].name, b.err)
 				return
 			}
@@ -148,6 +156,10 @@ func (c *C11Case) Run() (res stat.Result) {
 			}
 			if diff := deepEq(a.val, b.val, "", 0); diff != "" {
 				if id := c11Classify(c, ty, nil, nil, a.val, b.val); id != "" {
+					res.Known = append(res.Known, id)
+					continue
+				}
+				if id := c.classifyMerge(ty, api, i); id != "" {
 					res.Known = append(res.Known, id)
 					continue
 				}
@@ -187,10 +199,25 @@ func (c *C11Case) Run() (res stat.Result) {
 func c11Classify(c *C11Case, ty reflect.Type, jitErr, optErr error, jv, ov reflect.Value) string {
 	// payload of a ,string field that encoding/json rejects: the two decoders are lenient in different
 	// ways (same root cause as the C01 finding; judged by encoding/json's own diagnosis)
-	if (jitErr == nil) != (optErr == nil) && knownListed("C01-string-option-payload-lenient") {
-		if dst, err := c.newDest(ty); err == nil {
-			if je := json.Unmarshal(c.Doc, dst.Interface()); je != nil && strings.Contains(je.Error(), "invalid use of ,string struct tag") {
-				return "C01-string-option-payload-lenient"
+	if (jitErr == nil) != (optErr == nil) && knownListed("C01-string-option-payload-lenient") && stringOptPayloadRejectedByStd(&c.C01Case, ty) {
+		return "C01-string-option-payload-lenient"
+	}
+	if jitErr != nil && optErr == nil {
+		if id := quotedNumberStricterFinding(&c.C01Case, ty); id != "" {
+			return id
+		}
+		if typeHasNumber(ty, 0) && knownListed("C11-optdec-number-from-string-lenient") {
+			toks, _ := ref.Scan(c.Doc)
+			for _, t := range toks {
+				if t.Kind != ref.TString {
+					continue
+				}
+				body, _ := ref.Unquote(c.Doc[t.Beg+1 : t.End-1])
+				if len(body) > 0 && (body[0] == '-' || body[0] >= '0' && body[0] <= '9') {
+					if nt, ok := ref.Scan(body); !ok || len(nt) != 1 || nt[0].Kind != ref.TNumber || nt[0].Beg != 0 || nt[0].End != len(body) {
+						return "C11-optdec-number-from-string-lenient"
+					}
+				}
 			}
 		}
 	}
@@ -230,6 +257,11 @@ func c11Classify(c *C11Case, ty reflect.Type, jitErr, optErr error, jv, ov refle
 			return "C19-minus-zero-integer-literal"
 		}
 	}
+	if jv.IsValid() && ov.IsValid() && len(c.Prefill) > 0 && strings.Contains(string(c.Doc), "null") && knownListed("C11-optdec-bytes-array-null-prefilled") {
+		if c19LeafDiffsAll(jv, ov, func(x, y reflect.Value) bool { return x.Kind() == reflect.Uint8 && y.Uint() == 0 }) {
+			return "C11-optdec-bytes-array-null-prefilled"
+		}
+	}
 	if jv.IsValid() && ov.IsValid() {
 		if id := doubleUnquoteSurrogateFinding(&c.C01Case, ty, jv, ov); id != "" {
 			return id
@@ -241,6 +273,9 @@ func c11Classify(c *C11Case, ty reflect.Type, jitErr, optErr error, jv, ov refle
 		}
 		if id := intKeyFormFinding(&c.C01Case, ty); id != "" {
 			return id
+		}
+		if knownListed("C20-double-unquote-lone-surrogate") && doubleSurrogateRe.Match(c.Doc) && typeHasQuotedString(ty, 0) {
+			return "C20-double-unquote-lone-surrogate"
 		}
 	}
 	if jitErr != nil && optErr == nil && knownListed("C11-optdec-minus-zero-unsigned") {
@@ -282,4 +317,51 @@ func typeHasEmbeddedPtr(t reflect.Type, depth int) bool {
 		}
 	}
 	return false
+}
+
+func typeHasNumber(t reflect.Type, depth int) bool {
+	if depth > 8 {
+		return false
+	}
+	if t == reflect.TypeOf(json.Number("")) {
+		return true
+	}
+	switch t.Kind() {
+	case reflect.Map, reflect.Ptr, reflect.Slice, reflect.Array:
+		return typeHasNumber(t.Elem(), depth+1)
+	case reflect.Struct:
+		for i := 0; i < t.NumField(); i++ {
+			if typeHasNumber(t.Field(i).Type, depth+1) {
+				return true
+			}
+		}
+	}
+	return false
+}
+
+// classifyMerge: see known finding C11-optdec-no-in-place-merge.
+func (c *C11Case) classifyMerge(ty reflect.Type, api sonic.API, which int) string {
+	if !knownListed("C11-optdec-no-in-place-merge") {
+		return ""
+	}
+	dups := ref.EarlierDuplicates(c.Doc)
+	if len(dups) == 0 && len(c.Prefill) == 0 {
+		return ""
+	}
+	doc2 := ref.RemoveMembers(c.Doc, dups)
+	var vals [2]reflect.Value
+	var errs [2]error
+	for k, d := range []decoderSel{c11Decoders[0], c11Decoders[which]} {
+		verifhook.SetDecoder(d.opt, d.fm)
+		dst := reflect.New(ty)
+		errs[k] = api.Unmarshal(doc2, dst.Interface())
+		vals[k] = dst.Elem()
+	}
+	if (errs[0] == nil) != (errs[1] == nil) {
+		return ""
+	}
+	if errs[0] == nil && deepEq(vals[0], vals[1], "", 0) != "" {
+		return ""
+	}
+	return "C11-optdec-no-in-place-merge"
 }
